@@ -131,4 +131,138 @@ theorem scan_keys_nodup (d : List (Str × List Str)) (key : Str) (ls : List Str)
     obtain ⟨e, he, rfl⟩ := List.mem_map.mp ha
     exact List.any_eq_true.mpr ⟨e, he, by simp⟩
 
+/-- a line is held by the scan's dict: some entry lists it -/
+def Holds (d : List (Str × List Str)) (l : Str) : Prop := ∃ e ∈ d, l ∈ e.2
+
+private theorem scanStep_keeps (d : List (Str × List Str)) (key : Str) (ls : List Str) (l : Str) (h : Holds d l) :
+    Holds (scanStep d key ls) l := by
+  obtain ⟨e, he, hl⟩ := h
+  unfold scanStep
+  split
+  · refine ⟨_, List.mem_map.mpr ⟨e, he, rfl⟩, ?_⟩
+    split
+    · exact List.mem_append_left _ hl
+    · exact hl
+  · exact ⟨e, List.mem_append_left _ he, hl⟩
+
+private theorem scanStep_adds (d : List (Str × List Str)) (key : Str) (ls : List Str) (l : Str) (h : l ∈ ls) :
+    Holds (scanStep d key ls) l := by
+  unfold scanStep
+  split
+  · rename_i hk
+    obtain ⟨e0, he0, hk0⟩ := List.any_eq_true.mp hk
+    refine ⟨_, List.mem_map.mpr ⟨e0, he0, rfl⟩, ?_⟩
+    simp only [hk0, if_true]
+    exact List.mem_append_right _ h
+  · exact ⟨(key, ls), by simp, h⟩
+
+private theorem foldl_holds (f : Cap → Str) (caps : List Cap) (d : List (Str × List Str)) (l : Str)
+    (h : Holds d l ∨ ∃ c ∈ caps, l ∈ longLines c) :
+    Holds (caps.foldl (fun d c => scanStep d (f c) (longLines c)) d) l := by
+  induction caps generalizing d with
+  | nil =>
+    rcases h with h | ⟨c, hc, _⟩
+    · exact h
+    · simp at hc
+  | cons c cs ih =>
+    simp only [List.foldl_cons]
+    apply ih
+    rcases h with h | ⟨c', hc', hl⟩
+    · exact Or.inl (scanStep_keeps _ _ _ _ h)
+    · rcases List.mem_cons.mp hc' with rfl | hc'
+      · exact Or.inl (scanStep_adds _ _ _ _ hl)
+      · exact Or.inr ⟨c', hc', hl⟩
+
+/-- every offending line of every caption is held by the scan, whatever keys the captions share and in whatever order they come -/
+theorem scan_holds_each (caps : List Cap) (c : Cap) (hc : c ∈ caps) (l : Str) (hl : l ∈ longLines c) : Holds (scan caps) l :=
+  foldl_holds _ caps [] l (Or.inr ⟨c, hc, hl⟩)
+
+/-- how the message spells one offending line -/
+def named (l : Str) : Str := l ++ " - Length ".toList ++ Str.ofNat l.length ++ ['\n']
+
+theorem message_names (d : List (Str × List Str)) (l : Str) (h : Holds d l) : named l <:+: scanMessage d := by
+  obtain ⟨e, he, hl⟩ := h
+  unfold scanMessage
+  rw [List.flatMap_def]
+  refine List.IsInfix.trans ?_ (List.infix_of_mem_flatten (List.mem_map.mpr ⟨e, he, rfl⟩))
+  have hne : e.2.isEmpty = false := by cases h2 : e.2 <;> simp_all
+  simp only [hne, Bool.false_eq_true, if_false]
+  have h1 : named l <:+: e.2.flatMap (fun l => l ++ " - Length ".toList ++ Str.ofNat l.length ++ ['\n']) := by
+    rw [List.flatMap_def]
+    exact List.infix_of_mem_flatten (List.mem_map.mpr ⟨l, hl, rfl⟩)
+  refine List.IsInfix.trans h1 ?_
+  exact ⟨'a' :: ("round ".toList ++ e.1 ++ " - ".toList), [], by simp⟩
+
+/-- **C15 (the error names each offending line).** whenever some line of some stored caption is longer than 32 characters, reading
+    raises the line-length error and its message contains, for EVERY such line of EVERY caption — whichever row of the caption it is,
+    however many captions share its start time, in whatever order they were stored — the line itself followed by ` - Length n` -/
+theorem error_names_each_offending_line (r : Reader) (he : r.err = false) (c : Cap) (hc : c ∈ r.S.stash) (l : Str)
+    (hl : l ∈ Str.splitChar '\n' (capText c)) (hlen : 32 < l.length) :
+    ∃ msg, finish r = .lineLength msg ∧ named l <:+: msg := by
+  have hll : l ∈ longLines c := by
+    unfold longLines
+    exact List.mem_filter.mpr ⟨hl, by simpa using hlen⟩
+  have hin := message_names _ l (scan_holds_each r.S.stash c hc l hll)
+  refine ⟨scanMessage (scan r.S.stash), ?_, hin⟩
+  unfold finish
+  simp only [he, Bool.false_eq_true, if_false]
+  have hne : (scanMessage (scan r.S.stash)).isEmpty = false := by
+    cases h2 : scanMessage (scan r.S.stash) with
+    | nil =>
+      rw [h2] at hin
+      have : named l = [] := List.infix_nil.mp hin
+      unfold named at this
+      simp at this
+    | cons _ _ => rfl
+  simp [hne]
+
+private theorem scanStep_only (d : List (Str × List Str)) (key : Str) (ls : List Str) (l : Str) (h : Holds (scanStep d key ls) l) :
+    Holds d l ∨ l ∈ ls := by
+  obtain ⟨e, he, hl⟩ := h
+  unfold scanStep at he
+  split at he
+  · obtain ⟨e1, he1, rfl⟩ := List.mem_map.mp he
+    split at hl
+    · rcases List.mem_append.mp hl with hl | hl
+      · exact Or.inl ⟨e1, he1, hl⟩
+      · exact Or.inr hl
+    · exact Or.inl ⟨e1, he1, hl⟩
+  · rcases List.mem_append.mp he with he | he
+    · exact Or.inl ⟨e, he, hl⟩
+    · simp only [List.mem_singleton] at he
+      subst he
+      exact Or.inr hl
+
+private theorem foldl_only (f : Cap → Str) (caps : List Cap) (d : List (Str × List Str)) (l : Str)
+    (h : Holds (caps.foldl (fun d c => scanStep d (f c) (longLines c)) d) l) :
+    Holds d l ∨ ∃ c ∈ caps, l ∈ longLines c := by
+  induction caps generalizing d with
+  | nil => exact Or.inl h
+  | cons c cs ih =>
+    simp only [List.foldl_cons] at h
+    rcases ih _ h with h | ⟨c', hc', hl⟩
+    · rcases scanStep_only _ _ _ _ h with h | h
+      · exact Or.inl h
+      · exact Or.inr ⟨c, List.mem_cons_self, h⟩
+    · exact Or.inr ⟨c', List.mem_cons_of_mem _ hc', hl⟩
+
+/-- the scan holds nothing but offending lines: every line it lists is a line longer than 32 characters of some stored caption -/
+theorem scan_holds_only (caps : List Cap) (l : Str) (h : Holds (scan caps) l) :
+    ∃ c ∈ caps, l ∈ Str.splitChar '\n' (capText c) ∧ 32 < l.length := by
+  rcases foldl_only _ caps [] l h with ⟨e, he, _⟩ | ⟨c, hc, hl⟩
+  · simp at he
+  · refine ⟨c, hc, ?_⟩
+    unfold longLines at hl
+    have := List.mem_filter.mp hl
+    exact ⟨this.1, by simpa using this.2⟩
+
+/-- non-vacuity, and the shape one of the seeded changes broke: a caption of five rows whose FIFTH row has 33 characters -/
+def fiveRows : Reader :=
+  { S := { stash := [{ start := 1000000, stop := 3000000,
+                       nodes := [.text "one".toList (15, 0), .brk (15, 0), .text "two".toList (15, 0), .brk (15, 0), .text "three".toList (15, 0), .brk (15, 0),
+                                 .text "four".toList (15, 0), .brk (15, 0), .text "THIS ROW OF TEXT HAS 33 CHARS IN.".toList (15, 0)] }] } }
+
+example : ∃ msg, finish fiveRows = .lineLength msg ∧ named "THIS ROW OF TEXT HAS 33 CHARS IN.".toList <:+: msg :=
+  error_names_each_offending_line fiveRows (by decide) _ (List.mem_singleton.mpr rfl) _ (by decide) (by decide)
+
 end PcVerif.Props.C15
